@@ -66,6 +66,8 @@ class H2Server:
         self.recv_conn_window = 65535
         self.send_conn_window = 65535
         self.outq: dict[int, list] = {0: []}
+        self.pings_unacked = 0   # PINGs this server has sent and the client has not acknowledged yet
+        self.ping_gate = False   # a server that holds back stream frames until its PING is acknowledged (RTT probe / liveness check)
         self.rr = 0
         self.header_block = None  # (sid, flags, bytearray) while CONTINUATION is pending
         self.counters: dict = {}
@@ -227,6 +229,7 @@ class H2Server:
                 pong.flags.add("ACK")
                 self._enqueue(0, pong.serialize(), 0, "PING-ACK")
             else:
+                self.pings_unacked = max(0, self.pings_unacked - 1)
                 self._count("ping_ack")
         elif isinstance(f, hf.GoAwayFrame):
             self.client_goaway = (f.last_stream_id, f.error_code)
@@ -435,7 +438,9 @@ class H2Server:
         if "settings" in act:
             self._send_settings(act["settings"])
         elif "ping" in act:
-            fr = hf.PingFrame(0, opaque_data=bytes(act["ping"]) if not isinstance(act["ping"], bool) else b"12345678")
+            fr = hf.PingFrame(0, opaque_data=bytes(act["ping"]) if isinstance(act["ping"], (list, bytes)) else b"12345678")
+            if isinstance(act["ping"], dict) and act["ping"].get("gate"):
+                self.ping_gate = True
             self._enqueue(0, fr.serialize(), 0, "PING")
         elif "goaway" in act:
             if self.goaway_sent is not None:
@@ -546,6 +551,7 @@ class H2Server:
                 units.append((fr, fr.flow_controlled_length, "DATA", last and not trailers))
         if trailers:
             units.append((("lazy", sid, [(b"x-trailer", b"1")], True, {}), 0, "HEADERS-trailers", True))
+        ex["n_units"] = len(units)  # frames-as-units of the complete response (a header block with its CONTINUATIONs is one unit)
         if rst is not None:
             k = rst.get("after", 0)
             units = units[:k]
@@ -595,6 +601,8 @@ class H2Server:
             if not units:
                 continue
             data, flow, label, closes = units[0]
+            if q != 0 and self.ping_gate and self.pings_unacked > 0:
+                continue  # waiting for the PING ACK before going on with the streams
             if label == "DATA" and flow > 0:
                 st = self.streams.get(q)
                 if st is None or min(self.send_conn_window, st["send_window"]) <= 0:
@@ -641,6 +649,8 @@ class H2Server:
             wire = data
         units.pop(0)
         pipe.server_send(wire, direct=True)
+        if label == "PING":
+            self.pings_unacked += 1
         self.log.append(("send", label, q, len(wire), self.world.seq))
         if label.startswith("GOAWAY") and self.goaway_sent is not None:
             self.goaway_sent["sent_offset"] = len(pipe.sent)
